@@ -447,6 +447,20 @@ func vestDistinct(w *World, r *Report, tm *Terms) {
 	}
 }
 
+// CallResult: "A was performed" means the transfer succeeded — what happens when the bank refuses it is the error
+// discipline of block processing (BB-ERRPROP, C07), not the pairing of payment and record.
+func (p *pairRule) CallResult(x *Explorer, fr *Frame, c ssa.CallInstruction) ([]AV, CallMode) {
+	if in, ok := c.(ssa.Instruction); ok && p.isA(in) {
+		n := c.Common().Signature().Results().Len()
+		if n > 0 && lastResultIsError(c.Common()) {
+			vals := make([]AV, n)
+			vals[n-1] = Nil
+			return vals, CallOverride
+		}
+	}
+	return nil, CallDefault
+}
+
 // pairRule: A (pending) must be followed by B before the enclosing loop's header is re-entered or the function succeeds.
 type pairRule struct {
 	BaseRule
@@ -460,13 +474,6 @@ const (
 	prViol      = 1 << 1
 	prBwithoutA = 1 << 2
 )
-
-func (p *pairRule) CallResult(x *Explorer, fr *Frame, c ssa.CallInstruction) ([]AV, CallMode) {
-	if fr.Fn == p.fn && !p.isA(c) && !p.isB(c) {
-		return nil, CallDefault
-	}
-	return nil, CallDefault
-}
 
 func (p *pairRule) OnInstr(x *Explorer, fr *Frame, in ssa.Instruction, st uint64) uint64 {
 	// A and B may sit in the explored function or in helpers it calls
